@@ -176,6 +176,115 @@ Proof.
   - rewrite Ho. reflexivity.
 Qed.
 
+(* ---------- a load raced by an admin edit ---------- *)
+Lemma set_eqb_refl x : set_eqb x x = true.
+Proof. apply set_eqb_spec. intros c; reflexivity. Qed.
+
+Lemma nlist_eqb_eq (a b : list N) : list_eqb N.eqb a b = true <-> a = b.
+Proof. apply list_eqb_eq. intros x y. apply N.eqb_eq. Qed.
+
+Lemma onlist_eqb_eq (a b : option (list N)) : option_eqb (list_eqb N.eqb) a b = true -> a = b.
+Proof.
+  destruct a, b; cbn [option_eqb]; intros H; try discriminate; [apply nlist_eqb_eq in H; congruence | reflexivity].
+Qed.
+
+Lemma urec_eqb_true a b : urec_eqb a b = true -> a = b.
+Proof.
+  unfold urec_eqb. rewrite !andb_true_iff. intros [[[H1 H2] H3] H4].
+  apply nlist_eqb_eq in H1, H3. apply onlist_eqb_eq in H2, H4. destruct a, b. cbn in *. congruence.
+Qed.
+
+Lemma rrec_eqb_true a b : rrec_eqb a b = true -> a = b.
+Proof.
+  unfold rrec_eqb. rewrite !andb_true_iff. intros [[H1 H2] H3].
+  apply eqb_prop in H1. apply nlist_eqb_eq in H2. apply onlist_eqb_eq in H3. destruct a, b. cbn in *. congruence.
+Qed.
+
+(* the edit always leaves a document different from the invalidated one that was read *)
+Lemma edit_differs ur ur0 c r :
+  u_xch ur = u_xch ur0 -> u_xro ur = u_xro ur0 ->
+  (exists a, u_ch ur = Some a) -> (exists b, u_ro ur = Some b) -> user_needs_rebuild ur0 = true ->
+  let ur1 := match c with
+             | Some c => if set_eqb c (u_xch ur) then ur else mkU c None (u_xro ur) (u_ro ur)
+             | None => ur
+             end in
+  let ur2 := match r with
+             | Some r => if set_eqb r (u_xro ur1) then ur1 else mkU (u_xch ur1) (u_ch ur1) r None
+             | None => ur1
+             end in
+  ur2 <> ur0.
+Proof.
+  intros Hx Hr [a Ha] [b Hb] Hn ur1 ur2 Heq. subst ur2 ur1. unfold user_needs_rebuild in Hn.
+  destruct c as [c|]; [destruct (set_eqb c (u_xch ur)) eqn:Ec|];
+    (destruct r as [r|]; [match type of Heq with context[set_eqb r ?x] => destruct (set_eqb r x) eqn:Er end|]);
+    subst ur0; cbn [u_xch u_ch u_xro u_ro] in *;
+    try (rewrite Ha, Hb in Hn; discriminate);
+    try (rewrite Hr, set_eqb_refl in Er; discriminate);
+    try (rewrite Hx, set_eqb_refl in Ec; discriminate).
+Qed.
+
+Lemma set_user_differs st u c r ur0 :
+  users st u = Some ur0 -> user_needs_rebuild ur0 = true -> users (fst (set_user st u c r)) u <> Some ur0.
+Proof.
+  intros E0 Hn. unfold set_user, rebuild_user. rewrite E0.
+  set (ur := mkU (u_xch ur0) _ (u_xro ur0) _).
+  pose proof (edit_differs ur ur0 c r eq_refl eq_refl (ex_intro _ _ eq_refl) (ex_intro _ _ eq_refl) Hn) as H.
+  cbv zeta in H. cbn [fst users set_users]. unfold upd. rewrite N.eqb_refl.
+  intros Heq. injection Heq as Heq. exact (H Heq).
+Qed.
+
+Lemma set_role_differs st r c rr0 :
+  roles st r = Some rr0 -> role_needs_rebuild rr0 = true -> roles (fst (set_role st r c)) r <> Some rr0.
+Proof.
+  intros E0 Hn. unfold role_needs_rebuild in Hn. apply andb_true_iff in Hn. destruct Hn as [Hd Hn].
+  apply negb_true_iff in Hd. unfold set_role, rebuild_role. rewrite E0, Hd. cbn [fst roles set_roles r_del].
+  unfold upd. rewrite N.eqb_refl. intros Heq. injection Heq as Heq. revert Heq.
+  destruct c as [c|]; [destruct (set_eqb c _) eqn:Ec|]; cbn [r_xch] in *; intros Heq; subst rr0; cbn [r_ch r_xch] in *;
+    try discriminate.
+  rewrite set_eqb_refl in Ec. discriminate.
+Qed.
+
+(* the raced load is exactly the sequential "edit, then load": same answer, same persisted state *)
+Lemma load_user_race_eq st u c r ur0 :
+  users st u = Some ur0 -> user_needs_rebuild ur0 = true ->
+  load_user_race st u c r = load_user (fst (set_user st u c r)) u.
+Proof.
+  intros E0 Hn. unfold load_user_race. rewrite E0, Hn. cbv zeta.
+  destruct (option_eqb urec_eqb (users (fst (set_user st u c r)) u) (Some ur0)) eqn:E; [|reflexivity].
+  exfalso. apply (set_user_differs st u c r ur0 E0 Hn).
+  destruct (users (fst (set_user st u c r)) u) as [x|]; cbn [option_eqb] in E; [|discriminate].
+  apply urec_eqb_true in E. congruence.
+Qed.
+
+Lemma load_role_race_eq st r c rr0 :
+  roles st r = Some rr0 -> role_needs_rebuild rr0 = true ->
+  load_role_race st r c = load_role (fst (set_role st r c)) r.
+Proof.
+  intros E0 Hn. unfold load_role_race. rewrite E0, Hn. cbv zeta.
+  destruct (option_eqb rrec_eqb (roles (fst (set_role st r c)) r) (Some rr0)) eqn:E; [|reflexivity].
+  exfalso. apply (set_role_differs st r c rr0 E0 Hn).
+  destruct (roles (fst (set_role st r c)) r) as [x|]; cbn [option_eqb] in E; [|discriminate].
+  apply rrec_eqb_true in E. congruence.
+Qed.
+
+Lemma load_user_race_Inv st u c r : Inv st -> Inv (fst (load_user_race st u c r)).
+Proof.
+  intros I. destruct (users st u) as [ur0|] eqn:E0.
+  - destruct (user_needs_rebuild ur0) eqn:Hn.
+    + rewrite (load_user_race_eq st u c r ur0 E0 Hn). apply load_user_correct. apply set_user_Inv. exact I.
+    + unfold load_user_race. rewrite E0, Hn. cbn [fst]. apply set_user_Inv. apply load_user_correct. exact I.
+  - unfold load_user_race. rewrite E0. cbn [fst]. apply set_user_Inv. exact I.
+Qed.
+
+Lemma load_role_race_Inv st r c : Inv st -> Inv (fst (load_role_race st r c)).
+Proof.
+  intros I. destruct (roles st r) as [rr0|] eqn:E0.
+  - destruct (role_needs_rebuild rr0) eqn:Hn.
+    + rewrite (load_role_race_eq st r c rr0 E0 Hn). apply load_role_Inv. apply set_role_Inv. exact I.
+    + unfold load_role_race. rewrite E0, Hn. cbn [fst]. apply set_role_Inv. apply load_role_Inv. exact I.
+  - unfold load_role_race. rewrite E0. cbn [fst]. apply set_role_Inv. exact I.
+Qed.
+
 Lemma step_Inv st o : Inv st -> op_ok o -> Inv (fst (step st o)).
 Proof.
   intros I H. destruct o; cbn [step].
@@ -187,6 +296,8 @@ Proof.
   - apply del_user_Inv; exact I.
   - apply load_user_correct; exact I.
   - apply load_role_Inv; exact I.
+  - apply load_user_race_Inv; exact I.
+  - apply load_role_race_Inv; exact I.
 Qed.
 
 Lemma purge_ok_cons o ops : purge_ok (o :: ops) -> op_ok o /\ purge_ok ops.
